@@ -52,7 +52,7 @@ L2, R2, L3, R3 = "⟦", "⟧", "⦃", "⦄"       # second and third location of
 
 class Fault:
     def __init__(self, name, phase, severity, ident, stmt, pre=(), post=(), fs=None, where="marker", note="",
-                 needs_no_link=False, main_only=False, also=()):
+                 needs_no_link=False, main_only=False, also=(), family=""):
         assert phase in ("parse-critical", "parse", "compile", "eval")
         assert severity in ("critical", "error", "warning")
         self.name, self.phase, self.severity, self.ident = name, phase, severity, ident
@@ -61,6 +61,7 @@ class Fault:
         self.needs_no_link = needs_no_link      # the benign program must not set the link base
         self.main_only = main_only              # only meaningful in a linked file (not inside .include)
         self.also = list(also)                  # [(identifier, "second"|"third")]: a LATER diagnostic that must lead with that marked token
+        self.family = family                    # name of the generated family the kind belongs to ("" = written by hand)
 
     def __repr__(self):
         return f"<Fault {self.name}: {self.severity} {self.ident}>"
@@ -260,6 +261,63 @@ _k("include-directory", "eval", "error", "io-error", "«.include \"dir{u}\"»", 
 _k("duplicate-export", "eval", "error", "duplicate-symbol", "«de{u}::» nop", pre=[".extern «de{u}»"])
 _k("invalid-code-point", "eval", "error", "value-out-of-bounds", ".ascii \"a\"<«2000000»>")
 _k("ascii-byte-too-large", "eval", "error", "value-out-of-bounds", ".ascii \"a\" <«400»> \"b\"")
+
+
+# ---- evaluation-time faults INSIDE AN INSTRUCTION OPERAND: addressing mode x expression shape x operand slot --------------
+# The value of an operand expression is checked long after parsing (insns.py: get_as_int for '#e', '@#e', 'e(rN)', '@e(rN)';
+# Deferred arithmetic for 'e' and '@e'), and for the index modes the expression token that is reported does not even come from the
+# parser: 'a OP b(rN)' is parsed as 'a OP (b(rN))' and REBUILT at encode time into '(a OP b)(rN)' (RegisterModeOperandStub.encode,
+# "hoisting": infix operators, prefix operators, nested, under '@').  The culprit is the expression a reader sees in front of the
+# register: it starts at its first character and ends at its last one, whatever tree surgery produced the token.
+#   mode:  where the expression E sits in the operand; ranged = its value must fit in 16 bits (the relative modes wrap instead)
+#   slot:  which instruction / operand position carries the operand (source, destination, single operand, jsr target, byte
+#          instruction, FP11 instruction (FP11RMOperandStub falls through to the same code), body of a '.repeat' block whose
+#          operand tree is shared between iterations: the FIRST diagnostic is judged)
+#   expr:  (name, identifier, E with the culprit marked, set-up statements, ranged-only)
+OPERAND_MODES = [
+    ("immediate", "#{E}", True), ("absolute", "@#{E}", True),
+    ("index", "{E}(r3)", True), ("index-deferred", "@{E}(r2)", True),
+    ("index-sp", "{E}(sp)", True), ("index-regnum", "{E}(%4)", True),
+    ("relative", "{E}", False), ("relative-deferred", "@{E}", False),
+]
+OPERAND_SLOTS = [("src", "mov {X}, r0"), ("dst", "mov r1, {X}"), ("single", "tst {X}"), ("jsr", "jsr pc, {X}"),
+                 ("byte-dst", "movb r2, {X}"), ("fp11", "ldf {X}, ac1"), ("in-repeat", ".repeat 2 { add {X}, r4 }")]
+OPERAND_EXPRS = [
+    ("atom-too-large", "value-out-of-bounds", "«200000»", (), True),
+    ("sum-too-large", "value-out-of-bounds", "«100000+100000»", (), True),
+    ("spaced-sum-too-large", "value-out-of-bounds", "«100000 +\t100000»", (), True),
+    ("difference-chain-too-large", "value-out-of-bounds", "«ot{u} - 200000 - ot{u}»", ("ot{u} = 4",), True),
+    ("product-then-sum-too-large", "value-out-of-bounds", "«2 * 100000 + 1»", (), True),
+    ("sum-then-product-too-large", "value-out-of-bounds", "«1 + 2 * 100000»", (), True),
+    ("group-too-large", "value-out-of-bounds", "«(100000+100000)»", (), True),
+    ("angle-group-too-large", "value-out-of-bounds", "«<100000+100000>»", (), True),
+    ("negative-number-too-small", "value-out-of-bounds", "-«200000»", (), True),        # Number tokens start after the sign, see 'negative-8'
+    ("negated-group-too-small", "value-out-of-bounds", "«-(200000)»", (), True),
+    ("complement-too-small", "value-out-of-bounds", "«~600000»", (), True),
+    ("complement-difference-too-small", "value-out-of-bounds", "«~177777 - 177777»", (), True),
+    ("division-by-zero", "arithmetic-error", "«14 / 0»", (), False),
+    ("division-by-zero-after-sum", "arithmetic-error", "3 + «14 / 0»", (), False),
+    ("division-by-zero-before-sum", "arithmetic-error", "«14 / 0» + 3", (), False),
+    ("modulo-by-zero-spaced", "arithmetic-error", "«7 %\t0»", (), False),
+    ("negative-shift", "arithmetic-error", "«1 << -1»", (), False),
+    ("negative-right-shift-after-or", "arithmetic-error", "2 | «1 >> -1»", (), False),
+    ("undefined-symbol-last", "undefined-symbol", "2 + «ou{u}»", (), False),
+    ("undefined-symbol-first", "undefined-symbol", "«ov{u}» - 2", (), False),
+    ("undefined-symbol-negated", "undefined-symbol", "-«ow{u}»", (), False),
+]
+
+
+def _operand_family():
+    for mi, (mname, mt, ranged) in enumerate(OPERAND_MODES):
+        for ei, (ename, ident, e, pre, needs_range) in enumerate(OPERAND_EXPRS):
+            if needs_range and not ranged:
+                continue
+            sname, st = OPERAND_SLOTS[(mi * 3 + ei) % len(OPERAND_SLOTS)]      # every mode meets every slot, every expr several slots
+            _k("operand-%s-%s-%s" % (mname, ename, sname), "eval", "error", ident, st.replace("{X}", mt.replace("{E}", e)), pre=list(pre),
+               family="operand", note="mode %s, slot %s: the culprit is the marked part of the expression as written in the source" % (mname, sname))
+
+
+_operand_family()
 
 
 def kinds_by_phase():
